@@ -32,6 +32,75 @@ pub fn gen_cert(key: &[u8; 32], name: &str) -> CertificateDer<'static> {
         .to_owned()
 }
 
+/// A correctly self-signed certificate for `own_key` whose issuer and subject names carry, as the
+/// bytes of their common name, a complete Ed25519 SubjectPublicKeyInfo for `embedded` - placed
+/// before the certificate's real key in the encoding. Whoever presents it proves possession of
+/// `own_key` only.
+pub fn gen_cert_embedding_spki(own_key: &[u8; 32], embedded: &[u8; 32], name: &str) -> CertificateDer<'static> {
+    const MARK: &str = "QQQQQQQQQQQQQQQQQQQQQQQQQQQQQQQQQQQQQQQQQQQQ"; // 44 bytes = 12 header + 32 key
+    let kp = rcgen_keypair(own_key);
+    let mut p = rcgen::CertificateParams::new(vec![name.to_owned()]).unwrap();
+    let mut dn = rcgen::DistinguishedName::new();
+    dn.push(rcgen::DnType::CommonName, MARK);
+    p.distinguished_name = dn;
+    let mut der = p.self_signed(&kp).unwrap().der().to_vec();
+    let mut spki = vec![0x30, 0x2a, 0x30, 0x05, 0x06, 0x03, 0x2b, 0x65, 0x70, 0x03, 0x21, 0x00];
+    spki.extend_from_slice(embedded);
+    assert_eq!(spki.len(), MARK.len());
+    let mut i = 0;
+    let mut replaced = 0;
+    while i + MARK.len() <= der.len() {
+        if &der[i..i + MARK.len()] == MARK.as_bytes() {
+            der[i..i + MARK.len()].copy_from_slice(&spki);
+            // UTF8String -> T61String: any byte is a legal character there
+            if i >= 2 && der[i - 2] == 0x0c {
+                der[i - 2] = 0x14;
+            }
+            replaced += 1;
+            i += MARK.len();
+        } else {
+            i += 1;
+        }
+    }
+    assert_eq!(replaced, 2, "issuer and subject");
+    // re-sign the (same-length) TBSCertificate with the own key; an Ed25519 signature is the last 64 bytes
+    assert!(der[0] == 0x30 && der[1] == 0x82 && der[4] == 0x30);
+    let (hdr, len) = match der[5] {
+        0x82 => (4usize, ((der[6] as usize) << 8) | der[7] as usize),
+        0x81 => (3usize, der[6] as usize),
+        l => (2usize, l as usize),
+    };
+    let tbs = der[4..4 + hdr + len].to_vec();
+    let signer = ring::signature::Ed25519KeyPair::from_seed_unchecked(own_key).unwrap();
+    let sig = signer.sign(&tbs);
+    let n = der.len();
+    der[n - 64..].copy_from_slice(sig.as_ref());
+    CertificateDer::from(der)
+}
+
+/// A signing key that labels its CertificateVerify signature with an arbitrary scheme and signs
+/// with junk: what a party without the certificate's private key can always do.
+#[derive(Debug)]
+pub struct MislabelledKey(pub rustls::SignatureScheme);
+
+impl rustls::sign::SigningKey for MislabelledKey {
+    fn choose_scheme(&self, _offered: &[rustls::SignatureScheme]) -> Option<Box<dyn rustls::sign::Signer>> {
+        Some(Box::new(MislabelledKey(self.0)))
+    }
+    fn algorithm(&self) -> rustls::SignatureAlgorithm {
+        rustls::SignatureAlgorithm::ED25519
+    }
+}
+
+impl rustls::sign::Signer for MislabelledKey {
+    fn sign(&self, message: &[u8]) -> Result<Vec<u8>, rustls::Error> {
+        Ok(message.iter().cycle().take(64).map(|b| b ^ 0x5a).collect())
+    }
+    fn scheme(&self) -> rustls::SignatureScheme {
+        self.0
+    }
+}
+
 pub fn gen_cert_names(key: &[u8; 32], names: &[&str]) -> CertificateDer<'static> {
     let kp = rcgen_keypair(key);
     rcgen::CertificateParams::new(names.iter().map(|s| s.to_string()).collect::<Vec<_>>())
@@ -153,10 +222,18 @@ pub struct Adv {
 
 /// A raw QUIC endpoint on the fabric (accepts any peer certificate, presents what it is told to).
 pub fn adv_endpoint(w: &World, spec: AdvSpec) -> Adv {
+    adv_endpoint_signing(w, spec, None)
+}
+
+/// Like [`adv_endpoint`]; with `mislabel` the handshake signature is junk labelled with that scheme.
+pub fn adv_endpoint_signing(w: &World, spec: AdvSpec, mislabel: Option<rustls::SignatureScheme>) -> Adv {
     let addr = addr_port(spec.idx, spec.port);
     let socket = w.fabric.bind(addr).expect("adv bind");
     let provider = Arc::new(rustls::crypto::ring::default_provider());
-    let signer = rustls::crypto::ring::sign::any_supported_type(&key_der(&spec.sign_key)).unwrap();
+    let signer: Arc<dyn rustls::sign::SigningKey> = match mislabel {
+        Some(s) => Arc::new(MislabelledKey(s)),
+        None => rustls::crypto::ring::sign::any_supported_type(&key_der(&spec.sign_key)).unwrap(),
+    };
     let ck = Arc::new(rustls::sign::CertifiedKey::new(spec.chain.clone(), signer));
     let sni_seen = Arc::new(Mutex::new(Vec::new()));
     let peer_certs_seen = Arc::new(Mutex::new(Vec::new()));
